@@ -193,7 +193,7 @@ DEFAULT_PROFILE = dict(
     dip_spellings=True, result_dip=False, keyword_params=True, nested_structs=True,
     max_params=5, cb_struct_args=True, opt_slices=True, char=False, ordering=True,
     mut_self=True, opt_mut_oref=True, namespaces=False, byte_slices=True, renames=False,
-    strs_utf8=False, result_prim_err=True, opt_owned=False, write_prob=0.18, cb_opt=True, cb_slices=True, cb_strs=True, cb_aggr_ret=True, traits=False, trait_prob=0.5, held_callbacks=False, self_spelling=True, opt_strs=True,
+    strs_utf8=False, result_prim_err=True, opt_owned=False, write_prob=0.18, cb_opt=True, cb_slices=True, cb_strs=True, cb_aggr_ret=True, traits=False, trait_prob=0.5, held_callbacks=False, self_spelling=True, opt_strs=True, cb_orefs=False,
 )
 
 
@@ -327,6 +327,9 @@ class Gen:
             return ("enum", self.pick(self.enums).name)
         if cc < 0.9 and p["cb_struct_args"] and [s for s in self.structs if not s.lifetimes]:
             return ("struct", self.pick([s for s in self.structs if not s.lifetimes]).name)
+        if p["cb_orefs"] and self.chance(0.3) and [o for o in self.opaques if not o.lifetimes]:
+            # a reference to an opaque handed to foreign code for the duration of the call (needs `unsafe_references_in_callbacks`)
+            return ("oref", self.pick([o for o in self.opaques if not o.lifetimes]).name, self.chance(0.4), None, False)
         if p["cb_opt"] and p["option"] and self.chance(0.4):
             return ("opt", ("prim", self.pick(self.prims())), "dip" if (p["dip_spellings"] and self.chance(0.3)) else "std")
         if p["cb_slices"] and self.chance(0.5):
